@@ -40,4 +40,5 @@ let handle f = match f with
     (match hidden_adjust hidden (zi last) (zi i) (zi n) (zi d) with
      | Ok d' -> if move_valid (zi last) (zi i) (zi n) d' then "ok " ^ zs d' else "err"
      | _ -> "err")
+  | ["val"; last; at; delta] -> if edit_valid (zi last) (zi at) (zi delta) then "ok" else "err"
   | _ -> "badcase"
